@@ -250,13 +250,14 @@ def check_class(part, desc, root, all_values):
     for via, d in routes:     # all structural comparisons first: running a task re-installs copies of class attributes
         case = dict(desc=desc, via=via, values=None)
         part.case(key=json.dumps(case, sort_keys=True), nontrivial=nt)
+        shown = str(d)[:600]      # (python.define replaces the entries of d["inputs"] in place)
         try:
             R = structure(d)
         except Exception as e:  # noqa
             text = f"{type(e).__name__}: {e}"
             c = cause(cls, text)
             part.violation(f"structure-raises:{c}" if c else None, case,
-                           f"structure(unstructure(cls)) raised {text[:500]}; dictionary {str(d)[:600]}")
+                           f"structure(unstructure(cls)) raised {text[:500]}; dictionary {shown}")
             continue
         diffs = class_diffs(cls, R)
         if diffs:
@@ -264,7 +265,7 @@ def check_class(part, desc, root, all_values):
             c = cause(cls, a)
             sig = f"differs:{w}.{a}" + (f":{c}" if c else "")
             part.violation(sig, case, f"{len(diffs)} difference(s); first: {w} field {n!r} attribute {a}: original {x!r}, "
-                                      f"re-created {y!r}; dictionary {str(d)[:500]}")
+                                      f"re-created {y!r}; dictionary {shown}")
             continue
         rebuilt.append((via, R))
     for via, R in rebuilt:
